@@ -8,7 +8,8 @@ def run(chk):
                 'cross-volume copy + delete, trees removed / copied in several steps, orphans swept by trash-empty): InfoLast '
                 '(payload under files/, even partly removed, has its .trashinfo), RestoreNeverLoses (entry whole in the '
                 'trash or whole at its destination), FrameOK, DoneOK in every reachable state including after up to two '
-                'crashes with re-runs, RerunCompletes under weak fairness. (2) the REAL commands are killed immediately '
+                'crashes with re-runs, RerunCompletes under weak fairness; Apalache proves the safety invariants from an inductive '
+                'invariant (any number of steps). (2) the REAL commands are killed immediately '
                 'before operation k, for every k (and after the last), over a trash with a file, a deep directory tree '
                 'whose restore crosses volumes, a link (dangling, and in the @dirlink scenarios to an existing directory outside the trash, '
                 'which must stay untouched) and a file on another volume, plus two orphans; trash-restore also with --overwrite onto '
@@ -25,6 +26,21 @@ def run(chk):
                      ('restore_overwrite', dict(cmd='restore', selected=('e1', 'e2'), crossvol=('e2',), occupied=('e1', 'e2', 'e3')))]:
         res = opspec.run_purgeops(name, **kw)
         chk.add_tlc('PurgeOps:' + name, res, constants=str(kw))
+    # unbounded in the number of steps: Apalache discharges an inductive invariant of PurgeOps (Init => IndInv,
+    # IndInv /\ Next => IndInv', IndInv => InfoLast /\ RestoreNeverLoses /\ FrameOK); the design mutant must fail the step
+    for cmd in (['restore'] if chk.tier == 'quick' else ['restore', 'empty', 'rm']):
+        r = opspec.run_purgeops_inductive(cmd)
+        chk.tlc_runs.append({'config': 'apalache:PurgeOpsInd:' + cmd, 'distinct_states': 0, 'states_generated': 0, 'depth': 1,
+                             'wall_s': round(r['wall'], 2), 'ok': r['ok'], 'constants': 'inductive invariant, symbolic (Apalache 0.58)'})
+        if r['failed_phase'] == 'tool':
+            chk.machinery.append('apalache failed on PurgeOpsInd (%s): %s' % (cmd, r['detail'][-600:]))
+        elif not r['ok']:
+            chk.violation('apalache:PurgeOpsInd:%s:%s' % (cmd, r['failed_phase']),
+                          'the inductive invariant of PurgeOps.tla fails (%s) for %s' % (r['failed_phase'], cmd), {'detail': r['detail']})
+    if chk.tier != 'quick':
+        r = opspec.run_purgeops_inductive('empty', mutant='infofirst')
+        if r['ok'] or r['failed_phase'] == 'tool':
+            chk.machinery.append('apalache accepts the infofirst design mutant (or failed to run): %s' % r['failed_phase'])
     items = []
     for scen in opdrivers.PURGE_SCENARIOS:
         n, ops, ex, fin = opdrivers.purge_baseline(scen)
